@@ -183,7 +183,7 @@ func namedOf(t types.Type) *types.Named {
 
 func isErrorType(t types.Type) bool {
 	n, ok := t.(*types.Named)
-	return ok && n.Obj().Pkg() == nil && n.Obj().Name() == "error"
+	return ok && n.Obj().Pkg() == nil && core.TypeName(n) == "error"
 }
 
 // pkgPathOf returns the package path of the object a function value denotes.
@@ -214,4 +214,23 @@ func instrPos(in ssa.Instruction) (pos int) {
 		}
 	}
 	return int(in.Parent().Pos())
+}
+
+// typeObj: the object of a named type of a library package, by the name the rules know it under (a renamed
+// type is re-identified, core/anchors.go); nil interface if there is none.
+func typeObj(p *core.Prog, pkg, name string) types.Object {
+	if n := p.Type(pkg, name); n != nil {
+		return n.Obj()
+	}
+	return nil
+}
+
+// methodName: the name the rules know a method under (renamed methods are re-identified, core/anchors.go).
+var methodNameProg *core.Prog
+
+func methodName(obj types.Object) string {
+	if methodNameProg != nil {
+		return methodNameProg.MethodName(obj)
+	}
+	return obj.Name()
 }
